@@ -157,7 +157,7 @@ def run_solver(which, path, timeout_s):
     elif which == "z3old":
         cmd = [Z3OLD, "-smt2", "-T:%d" % max(1, int(timeout_s)), path]
     else:
-        cmd = [CVC5, "--strings-exp", "--tlimit=%d" % int(timeout_s * 1000), path]
+        cmd = [CVC5, "--strings-exp", "--strings-model-max-len=4000000", "--tlimit=%d" % int(timeout_s * 1000), path]
     try:
         p = subprocess.run(cmd, stdout=subprocess.PIPE, stderr=subprocess.STDOUT, timeout=timeout_s + 5)
         out = p.stdout.decode("utf-8", "replace")
